@@ -246,7 +246,7 @@ Definition spec_log (cfg : config) (sp : subject) (env : list (N * bool)) (st0 :
                 match newest_bundle st0 cfg (s_load sp) with
                 | Some ((_, k0, _, _) as b0) =>
                     match revoked_state env b0 with
-                    | Some true => true    (* judged by the state clause *)
+                    | Some true => negb (N.eqb k k0)   (* the replacement is never issued on the compromised key *)
                     | _ => N.eqb k k0
                     end
                 | None => match first_key st0 (issuers cfg) (s_pre sp) with Some k0 => N.eqb k k0 | None => generated (ob_log o) k end
@@ -255,9 +255,26 @@ Definition spec_log (cfg : config) (sp : subject) (env : list (N * bool)) (st0 :
             end) iss.
 (** a step under injected storage errors: the property's first clause still binds - a REPORTED SUCCESS
     leaves a complete, matching, reloadable bundle, what was issued is stored, and the cached certificate
-    names the identifier (a reported error is fine) *)
-Definition spec_faulted (cfg : config) (sp : subject) (st0 : storage) (h : hop) (o : obs) : bool :=
-  spec_success cfg sp h o && spec_issued cfg sp st0 h o.
+    names the identifier (a reported error is fine) - and so do the key clauses: fresh key / reused key,
+    and no issuance on a key revoked for compromise (the quarantine of that key may be what failed) *)
+Definition spec_faulted (cfg : config) (sp : subject) (env : list (N * bool)) (st0 : storage) (h : hop) (o : obs) : bool :=
+  spec_success cfg sp h o && spec_log cfg sp env st0 h o
+  (* after a key-compromise revocation nothing that is stored anew certifies the compromised key, even
+     when the quarantine of that key failed *)
+  && (match h with
+      | HManage =>
+          match newest_bundle st0 cfg (s_load sp) with
+          | Some ((_, k0, _, _) as b0) =>
+              match revoked_state env b0 with
+              | Some true => forallb (fun e => match snd e with
+                                               | VCrt c => cert_in st0 (c_ser c) || negb (N.eqb (c_pub c) k0)
+                                               | _ => true end) (ob_st o)
+              | _ => true
+              end
+          | None => true
+          end
+      | _ => true
+      end).
 Definition spec_step (cfg : config) (sp : subject) (env : list (N * bool)) (st0 : storage) (h : hop) (o : obs) : bool :=
   spec_state cfg sp env st0 h o && spec_log cfg sp env st0 h o.
 
@@ -287,7 +304,7 @@ Fixpoint spec6 (cfg : config) (sp : subject) (env : list (N * bool)) (st0 : stor
       let fwd' := fwd && (negb (is_op h) || forwardb orc st0) && (match f with [] => true | _ => false end) in
       (match f with
        | [] => spec_step cfg sp env st0 h o
-       | _ => spec_faulted cfg sp st0 h o
+       | _ => spec_faulted cfg sp env st0 h o
        end) && (negb fwd' || spec_recent cfg sp h o) &&
       spec6 cfg sp (env_after sp st0 h env) (ob_st o) fwd' r
   end.
